@@ -128,6 +128,11 @@ structure Env where
   limit : Option Nat
   /-- the extension object registry -/
   exts : List RegEntry
+  /-- proposed repair (C02): a Variant array length below -1 is an error instead of reaching `reflect.MakeSlice` -/
+  fixNegLen : Bool := false
+  /-- proposed repair (C02): the product of the Variant dimensions is compared with the array length without
+      `int32` wrap-around (and a nil array has no dimensions) -/
+  fixDims : Bool := false
 
 structure St where
   buf : Bytes
@@ -470,6 +475,10 @@ def decDims : Nat → Dec (List Nat)
 /-- `count := int32(1); for … { count *= dims[i] }` as a bit pattern -/
 def prod32 (ds : List Nat) : Nat := (ds.foldl (· * ·) 1) % 4294967296
 
+/-- `count != m.arrayLength` after `count *= dims[i]` in `int32` (the code), or the exact comparison (repair) -/
+def dimsMismatch (env : Env) (ds : List Nat) (alen : Nat) : Bool :=
+  if env.fixDims then decide (toInt32 alen < 0 ∨ ds.foldl (· * ·) 1 ≠ (toInt32 alen).toNat) else decide (prod32 ds ≠ alen)
+
 def zeroVariant : Val := .variant 0 0 0 none ⟨0, 0⟩ .nil
 
 /-- the flattened elements of an array Variant: none for length -1 (nil slice), else `reflect.MakeSlice` and one
@@ -499,7 +508,7 @@ def decVariant (env : Env) (rec : Ty → Dec Val) : Dec Val := do
     let alen ← readUInt 4
     let n := toInt32 alen
     if n > maxVariantArrayLength then Dec.fail .err
-    else if n < -1 then Dec.fail .panicNegLen
+    else if n < -1 then Dec.fail (if env.fixNegLen then .err else .panicNegLen)
     else do
       let vals ← decVarElems env (decVarValue rec tid) n
       let valsNil := decide (n = -1)
@@ -508,7 +517,7 @@ def decVariant (env : Env) (rec : Ty → Dec Val) : Dec Val := do
       else do
         let dims ← optDec (has mask 0x40) (decDimList env dl) none
         let ds := dims.getD []
-        if dl > 0 ∧ prod32 ds ≠ alen then Dec.fail .err
+        if dl > 0 ∧ dimsMismatch env ds alen then Dec.fail .err
         else if dl < 2 then pure (.variant mask alen dl dims ⟨tid, 1⟩ (.slice valsNil vals))
         else do
           let v ← splitM env vals valsNil ds 0 vals.length
